@@ -143,6 +143,53 @@ def sprinkle(rng, roots: list[Node]) -> dict[int, list[Node]]:
     return inject
 
 
+def fragments(ck: Check, n: int) -> None:
+    """Copybook fragments as they are written to be COPY'd under someone else's 01: no 01 level, several top-level entries at 05 / 03 /
+    10, some of them REDEFINES of an earlier top-level entry.  One schema per top-level entry, in order, titled with its name; never
+    an internal error."""
+    import io
+
+    from stingray.cobol_parser import schema_iter
+
+    rng = ck.rng
+    for _ in range(n):
+        lvl = rng.choice([5, 3, 10, 2])
+        k = rng.randint(2, 5)
+        lines: list[str] = []
+        tops: list[str] = []
+        plain: list[tuple[str, int]] = []
+        for j in range(k):
+            nm = f"PAY-{rng.choice(['KEY', 'DATA', 'TEXT', 'AMT', 'CODE'])}-{j}"
+            w = rng.randint(2, 9)
+            red = ""
+            if plain and rng.random() < 0.45:
+                base, bw = rng.choice(plain[-1:] if rng.random() < 0.7 else plain)
+                red, w = f" REDEFINES {base}", bw
+            if rng.random() < 0.35 and w >= 2:
+                lines.append(f"       {lvl:02d}  {nm}{red}.")
+                a = rng.randint(1, w - 1)
+                lines.append(f"           {lvl + 5:02d}  {nm}-A PIC X({a}).")
+                lines.append(f"           {lvl + 5:02d}  {nm}-B PIC 9({w - a}).")
+            else:
+                lines.append(f"       {lvl:02d}  {nm}{red} PIC {rng.choice(['X', '9'])}({w}).")
+            tops.append(nm)
+            if not red:
+                plain.append((nm, w))
+        text = "\n".join(lines) + "\n"
+        has_red = "REDEFINES" in text
+        ck.case(("fragment", text), feature="fragment-without-01" + ("/top-level-redefines" if has_red else ""))
+        ck.oracle_evaluations += 1
+        inp = {"copybook": text}
+        try:
+            docs = list(schema_iter(io.StringIO(text)))
+        except BaseException as ex:  # noqa: BLE001
+            ck.fail("internal-error", f"a well-formed copybook fragment (no 01 level) ends in {type(ex).__name__}: {str(ex)[:80]}", inp)
+            continue
+        titles = [d.get("title") for d in docs]
+        if titles != tops:
+            ck.fail("entries", f"copybook fragment: schemas {titles} differ from the top-level entries {tops}", inp)
+
+
 def qualified_names_record(rng) -> Node:
     """one record whose groups reuse the same data names (KEY-DATA OF HDR / KEY-DATA OF BODY), redefined in each group: legal COBOL,
     the names being qualified by their group.  Only the structure of the schema is looked at (the layout of such records is
@@ -198,6 +245,7 @@ def explore(ck: Check, n: int) -> None:
             fake_root = Node(77, "WORK-ITEM", pic="X(2)", width=2)
             fake_root.unique = "WORK-ITEM"
             one_copybook(ck, [fake_root] + roots, inject, Style(), reqs, impl, inputs, "starts-with-77")
+    fragments(ck, max(12, n // 8))
     # a data name that begins with SYNC (the one reserved-word prefix the existing tests pin): known finding D39
     w = Node(1, "R", children=[Node(5, "SYNC-FLAG", pic="X", width=1), Node(5, "B", pic="X", width=1)])
     for n in preorder(w):
